@@ -69,7 +69,7 @@ async def execute(net, hyg, plan):
                 if d.close_task is not None:
                     break
                 await asyncio.sleep(0)
-        if action and (action == "server-close" or action.endswith("+close")) and d.cut_done:
+        if action and (action.startswith("server-close") or action.endswith("+close")) and d.cut_done:
             mon["server_close_returns"] += 1
             await asyncio.wait([d.close_task], timeout=10.0)
             if not d.close_task.done():
@@ -82,7 +82,7 @@ async def execute(net, hyg, plan):
         if not quiet:
             return {"inconclusive": "no quiescence within bound"}
         mon["ledger_at_quiescence"] += 1
-        closed_srv = bool(action) and (action == "server-close" or action.endswith("+close")) and d.cut_done
+        closed_srv = bool(action) and (action.startswith("server-close") or action.endswith("+close")) and d.cut_done
         # sessions that were not cut ended by QUIT; whoever is still alive is closed by the harness first
         alive = [s for s in d.sessions if s.alive]
         leaks = w.leaks(expect_server_closed=closed_srv)
@@ -106,6 +106,8 @@ async def execute(net, hyg, plan):
         mon["task_audit"] += 1
         mine = d.harness_tasks() | {asyncio.current_task()}
         pend = [t for t in asyncio.all_tasks() if not t.done() and t not in mine]
+        if pend and alive and not closed_srv:
+            pend = []   # as for the ledger: a script without QUIT that was not cut leaves a live, legitimate session
         if pend:
             names = sorted({(t.get_coro().__qualname__ if t.get_coro() else "?") for t in pend})
             viol.append({"key": f"task-pending-after-{action or 'quit'}-during-{stage}",
@@ -199,7 +201,7 @@ def run_case(case):
 def gen_cases(tier, seed):
     rng = random.Random(seed * 31 + 5)
     cases = []
-    names = QUICK_SCRIPTS if tier == "quick" else sorted(corpus())
+    names = QUICK_SCRIPTS if tier == "quick" else sorted(n for n in corpus() if n != "flood")
     for name in names:
         for action in ACTIONS:
             cases.append({"kind": "enum", "action": action, "plan": {"scripts": [name], "seed": seed}})
@@ -218,6 +220,16 @@ def gen_cases(tier, seed):
         cases.append({"kind": "enum", "action": action, "stride": 9 if tier == "quick" else 2, "phase": seed % 2,
                       "plan": {"scripts": ["retr_huge"], "seed": seed}})
     cases.append({"kind": "enum", "action": "ctrl-rst-noread", "plan": {"scripts": ["stor_slow"], "seed": seed}})
+    # slow back end: the cut lands while the worker is inside open()/seek()/close() of the back end
+    for name in ("retr_pasv", "stor_pasv", "stor_rest", "stor_rest_missing", "mlsd"):
+        for action in ("rst", "server-close"):
+            cases.append({"kind": "enum", "action": action, "stride": 2 if tier == "quick" else 1, "phase": seed % 2,
+                          "plan": {"scripts": [name], "backend_delay": [0.005], "seed": seed}})
+    # reply flood: the peer never reads its control connection, the replies fill every buffer on the way back; then it
+    # vanishes, or stays (silent, not reading) while Server.close() is called
+    for action in ("server-close-noread", "server-close", "rst", "fin", "ctrl-rst-noread"):
+        cases.append({"kind": "enum", "action": action, "stride": 97 if tier == "quick" else 13, "phase": seed % 13,
+                      "plan": {"scripts": ["flood"], "seed": seed}})
     # server.close() a few loop iterations after each event (e.g. after the SYN of a data connection)
     for name in (["retr_pasv", "stor_epsv_after"] if tier == "quick" else names):
         cases.append({"kind": "enum", "action": "server-close", "who": "all", "iters": [1, 2, 3] if tier == "quick" else [1, 2, 3, 4, 6],
